@@ -69,6 +69,12 @@ def handle (op : String) (args : List String) (impl : String) : Option Verdict :
     return ⟨m, ok, s!"subhash:n={min ps.length 3}:int64={inRange}"⟩
   | "evmsig", [r, s, rec] => sig "evmsig" r s rec
   | "subsig", [r, s, rec] => sig "subsig" r s rec
+  | "evmcall", [ps, sg] => some <| Id.run do
+    let some pl := parseProps ps | return bad
+    let some _ := fromHex sg | return bad
+    -- the batch the contract receives (and hashes) is the batch that was hashed for signing, in order; signature unchanged
+    let m := ps ++ "|" ++ sg
+    return ⟨m, impl == m, s!"evmcall:n={min pl.length 3}"⟩
   | "recover", _ => some ⟨"ok", impl == "ok", "recover(test)"⟩
   | _, _ => none
 where
